@@ -72,6 +72,7 @@ def save_footprints_to_netcdf(results, config, filepath):
     mol_data = np.zeros((n_time,))
     wind_speed_data = np.zeros((n_time,))
     wind_dir_data = np.zeros((n_time,))
+    z0_data = np.full((n_time,), np.nan)  # only present for z0-forced runs
 
     for ti, tower_name in enumerate(tower_names):
         for t, r in enumerate(results[tower_name]):
@@ -82,6 +83,8 @@ def save_footprints_to_netcdf(results, config, filepath):
                 mol_data[t] = r["params"]["mol"]
                 wind_speed_data[t] = r["params"]["wind_speed"]
                 wind_dir_data[t] = r["params"]["wind_dir"]
+                if r["params"].get("z0") is not None:
+                    z0_data[t] = r["params"]["z0"]
 
     # Tower metadata
     # (looked up by name so that each label stays with its tower's data)
@@ -163,6 +166,13 @@ def save_footprints_to_netcdf(results, config, filepath):
             "domain_ymax": config.domain.ymax,
         },
     )
+
+    if not np.all(np.isnan(z0_data)):
+        ds["z0"] = (
+            ["time"],
+            z0_data,
+            {"long_name": "roughness length", "units": "m"},
+        )
 
     encoding = {
         "footprint": {"zlib": True, "complevel": 4},
